@@ -193,7 +193,7 @@ func cmdCheck(args []string) int {
 		seed, _ = strconv.Atoi(s)
 	}
 	solverSeed = seed
-	timeout := 10000
+	timeout := 20000
 	if tier == "thorough" {
 		timeout = 60000
 		allSolvers = true
